@@ -177,6 +177,11 @@ def run_unit_more(M, kind, p, aux):
         atoms['i'] = str(req.unique_id)
         lines = list(cap.records)
         bad += M.oracle_log(lines, atoms, fmt.count('"'))
+        if not lines:
+            # a field the atoms do not have: format() fails, access() reports on the error log, no entry
+            q.append(('loglinef %s ' % M.PIECES(c12_tables._pieces_format(fmt))
+                      + ' '.join('%s=%s' % (k, T(atoms[k])) for k in 'hlutrsbfaoiz'), 'none',
+                      'access-log line (custom format with an unknown field)'))
         if lines:
             q.append(('loglinef %s ' % M.PIECES(c12_tables._pieces_format(fmt))
                       + ' '.join('%s=%s' % (k, T(atoms[k])) for k in 'hlutrsbfaoiz'),
@@ -188,7 +193,7 @@ def run_unit_more(M, kind, p, aux):
 
 MORSEL_ATTRS = ['path', 'domain', 'comment', 'expires', 'max-age', 'version', 'samesite']
 LOGF = ['{h} "{o}" {i} {z} "{r}"', '"{o}"', '{o}|{a}|"{f}"', '{h} {l} {u} {t} "{r}" {s} {b} "{f}" "{a}" {o}',
-        '{{{o}}} "{u}"']
+        '{{{o}}} "{u}"', '{o} {q}']
 
 
 def gen_aux(M, rng, kind):
